@@ -148,6 +148,7 @@ def run():
     ck.cov['faults_fired'] = fired
     ck.cov['rule'] = ('(creating call, {jit}, {large}, k) enumerated by TLC from RxAlloc (edge labels of the state graph), create_vm additionally in light and full-memory form, '
                       'hard-AES/secure rotated; non-trivial = a request actually fails (injected k>0 or large pages refused by the OS)')
+    ck.cov['rule'] += '; plus: every large-page case with an emulated huge-page pool, refusal streaks, aligned placement of mappings, 64-byte key (key copy request), both release orders'
     ck.cov['exhaustive'] = True
     ck.sample({'case': list(scens[5]['case']), 'scenario': scens[5]['text'].splitlines()})
     cr = [l for l in lines if l.startswith('{"e": "CreateVm"') and '"faultFired": true' in l]
